@@ -10,6 +10,7 @@
      OSTMT = - | STMT        ELSE = - | (else BODY) | (elif STMT)
      PARTS = (PART...)       PART = (ref g) | (lit BODY) | (lam id PARTS)
      CLAUSE = (case id POS OSTMT PARTS BODY ft)
+   A line (rel (b1 b2 ...) (t1 t2 ...)) asks for the directive file name of target t against base b: REL=<name>.
    Output, one line per package:
      guards=<0|1> ; per emitted function  F<g>=<lines> where a line is D<f>:<l>:<c> | O | C<id> ;
      then  P<g>.<id>=<f>:<l>  the position Go attributes to the first line tagged with a non-zero id,
@@ -123,7 +124,14 @@ let () =
   try while true do
     let line = input_line stdin in
     (try
-      let pr = prog (parse line) in
+      match parse line with
+      | L [A "rel"; L b; L t] ->
+          (* file-name query: components are plain atoms *)
+          let comp = function A a -> List.init (String.length a) (fun i -> n_of_int (Char.code a.[i])) | _ -> failwith "comp" in
+          let r = rel_path (List.map comp b) (List.map comp t) in
+          print_string ("REL=" ^ String.concat "/" (List.map (fun c -> String.concat "" (List.map (fun z -> String.make 1 (Char.chr (int_of_n z))) c)) r))
+      | sx ->
+      let pr = prog sx in
       let guards = nodupb (func_names pr) && wf_prog pr in
       let buf = Buffer.create 1024 in
       Buffer.add_string buf (Printf.sprintf "guards=%d" (if guards then 1 else 0));
